@@ -363,15 +363,20 @@ class rangelist(object):
     def __invert__(self):
         print("rangelist.__invert__")
 
+def _literal_width(v):
+    # An integer literal is a signed 32-bit value unless it takes more
+    # bits to represent its value
+    return max(32, v.bit_length()+1)
+
 def to_expr(t):
     if isinstance(t, expr):
         # This expression is already on the stack
 #        push_expr(t.em)
         return t
     elif type(t) == int or type(t) == ValueInt:
-        return expr(ExprLiteralModel(int(t), True, 32))
+        return expr(ExprLiteralModel(int(t), True, _literal_width(int(t))))
     elif type(t) == float:
-        return expr(ExprLiteralModel(int(round(t)), True, 32))
+        return expr(ExprLiteralModel(int(round(t)), True, _literal_width(int(round(t)))))
     elif isinstance(type(t), (EnumMeta,IntEnum)):
         return expr(EnumInfo.get(type(t)).e2e(t))
     elif isinstance(t, type):
